@@ -625,6 +625,29 @@ func sharedStateEffects(w *World, fn *ssa.Function, ra *repoAnchors) []stateEffe
 		fa := st.Addr.(*ssa.FieldAddr)
 		out = append(out, stateEffect{st, fieldOf(fa.X.Type(), fa.Field), st.Val})
 	}
+	// in-place modification of the shared slice: slices.DeleteFunc & co. compact / reorder the backing
+	// array of their argument, so calling them on the shared list changes it at once, whatever is
+	// done with the result
+	for _, ci := range callsIn(fn) {
+		cc := ci.Common()
+		name := callName(cc)
+		inPlace := false
+		for _, pfx := range []string{"slices.DeleteFunc", "slices.Delete", "slices.Compact", "slices.CompactFunc", "slices.Sort", "slices.SortFunc", "slices.SortStableFunc", "slices.Reverse", "sort.Slice", "sort.SliceStable", "sort.Sort", "sort.Stable"} {
+			if name == pfx || strings.HasPrefix(name, pfx+"[") {
+				inPlace = true
+			}
+		}
+		if !inPlace || len(cc.Args) == 0 {
+			continue
+		}
+		if ld, ok := stripConv(cc.Args[0]).(*ssa.UnOp); ok {
+			if fa, ok := ld.X.(*ssa.FieldAddr); ok {
+				if f := fieldOf(fa.X.Type(), fa.Field); f == ra.known || f == ra.treeField {
+					out = append(out, stateEffect{ci, f, nil})
+				}
+			}
+		}
+	}
 	for _, ci := range callsIn(fn) {
 		callee := ci.Common().StaticCallee()
 		if callee == nil || callee == fn || fnPkgPath(callee) != fnPkgPath(fn) || callee.Blocks == nil {
@@ -776,6 +799,9 @@ func c06Clone(w *World, r *Report, ra *repoAnchors) {
 			if se.Field != ra.treeField {
 				continue
 			}
+			if se.Val == nil {
+				continue
+			}
 			for _, o := range w.Origins(se.Val, nil) {
 				if isCloneResult(o) {
 					ok = true
@@ -890,7 +916,7 @@ func c06Bookkeeping(w *World, r *Report, ra *repoAnchors) {
 			}
 			found := false
 			for _, st := range sharedStateEffects(w, fn, ra) {
-				if st.Field != ra.known {
+				if st.Field != ra.known || st.Val == nil {
 					continue
 				}
 				// the value stored into the known-rules list is computed (possibly through locals and
